@@ -1,4 +1,4 @@
-From Coq Require Import List NArith Bool Lia.
+From Coq Require Import List NArith PeanoNat Bool Lia.
 From Kenlm Require Import C05.KNDefs C06.PruneModel.
 Import ListNotations.
 
@@ -10,3 +10,75 @@ Lemma f13_special_lost :
   map e_gram (prune_block false ren_special f13_block) = [[0];[1];[2];[4]]%N /\
   map e_gram (prune_spec ren_special f13_block) = [[0];[1];[3];[4]]%N.
 Proof. vm_compute. split; reflexivity. Qed.
+
+(* ---- the repaired stream delivers exactly the kept entries and the special unigrams, for every block *)
+Lemma upd_length : forall {A} i (x : A) l, length (upd i x l) = length l.
+Proof. intros A i x l. revert i. induction l as [|h t IH]; intros [|i]; simpl; try reflexivity. rewrite IH. reflexivity. Qed.
+
+Lemma firstn_upd_ge : forall {A} i j (x : A) l, (j <= i)%nat -> firstn j (upd i x l) = firstn j l.
+Proof.
+  intros A i j x l. revert i j. induction l as [|h t IH]; intros [|i] [|j] H; simpl; try reflexivity; try lia. rewrite IH by lia. reflexivity.
+Qed.
+
+Lemma skipn_upd_lt : forall {A} i j (x : A) l, (i < j)%nat -> skipn j (upd i x l) = skipn j l.
+Proof.
+  intros A i j x l. revert i j. induction l as [|h t IH]; intros [|i] [|j] H; simpl; try reflexivity; try lia. apply IH. lia.
+Qed.
+
+Lemma firstn_S_upd : forall {A} i (x d : A) l, (i < length l)%nat -> firstn (S i) (upd i x l) = firstn i l ++ [x].
+Proof.
+  intros A i x d l. revert i. induction l as [|h t IH]; intros [|i] H; simpl in *; try lia; [reflexivity|]. rewrite IH by lia. reflexivity.
+Qed.
+
+Lemma firstn_S_nth : forall {A} i (d : A) l, (i < length l)%nat -> firstn (S i) l = firstn i l ++ [nth i l d].
+Proof.
+  intros A i d l. revert i. induction l as [|h t IH]; intros [|i] H; simpl in *; try lia; [reflexivity|]. rewrite (IH i) by lia. reflexivity.
+Qed.
+
+Lemma nth_hd_skipn : forall {A} i (d : A) l, nth i l d = hd d (skipn i l).
+Proof. intros A i d l. revert i. induction l as [|h t IH]; intros [|i]; simpl; try reflexivity. apply IH. Qed.
+
+Lemma nth_skipn_eq : forall {A} i (d : A) l l', skipn i l = skipn i l' -> nth i l d = nth i l' d.
+Proof. intros A i d l l' H. rewrite !nth_hd_skipn, H. reflexivity. Qed.
+
+Lemma skipn_S_of : forall {A} i (l l' : list A), skipn i l = skipn i l' -> skipn (S i) l = skipn (S i) l'.
+Proof.
+  intros A i l l' H. assert (E : forall j (x : list A), skipn (S j) x = tl (skipn j x)).
+  { intros j x. revert j. induction x as [|h t IH]; intros [|j]; simpl; try reflexivity. apply IH. }
+  rewrite !E, H. reflexivity.
+Qed.
+
+Lemma prune_spec_snoc : forall special l e, prune_spec special (l ++ [e]) = prune_spec special l ++ (if special e || negb (e_marked e) then [e] else []).
+Proof. intros. unfold prune_spec. rewrite filter_app. reflexivity. Qed.
+
+Lemma prune_run_inv : forall special fuel mem0 mem dest cur,
+  (cur + fuel = length mem0)%nat -> length mem = length mem0 -> (dest <= cur)%nat ->
+  firstn dest mem = prune_spec special (firstn cur mem0) -> skipn cur mem = skipn cur mem0 ->
+  prune_run true special fuel mem dest cur = prune_spec special mem0.
+Proof.
+  intros special. induction fuel as [|fuel IH]; intros mem0 mem dest cur Hf Hl Hd Hpre Hsuf.
+  - simpl. rewrite Hpre. replace cur with (length mem0) by lia. rewrite firstn_all. reflexivity.
+  - cbn [prune_run]. assert (Hc : (cur < length mem0)%nat) by lia.
+    assert (En : nth cur mem dflt = nth cur mem0 dflt) by (apply nth_skipn_eq; exact Hsuf).
+    set (e := nth cur mem dflt) in *.
+    assert (Hnext : firstn (S cur) mem0 = firstn cur mem0 ++ [e]) by (rewrite En; apply firstn_S_nth; exact Hc).
+    assert (Hkeep : forall mem', mem' = copy_down mem dest cur -> special e || negb (e_marked e) = true ->
+              prune_run true special fuel mem' (S dest) (S cur) = prune_spec special mem0).
+    { intros mem' -> Hk. unfold copy_down. fold e. destruct (Nat.ltb_spec dest cur) as [Hlt|Hge].
+      - apply IH; [lia|rewrite upd_length; exact Hl|lia| |].
+        + rewrite (firstn_S_upd dest e dflt mem) by lia. rewrite Hpre, Hnext, prune_spec_snoc, Hk. reflexivity.
+        + rewrite skipn_upd_lt by lia. apply skipn_S_of. exact Hsuf.
+      - assert (dest = cur) by lia. subst dest. apply IH; [lia|exact Hl|lia| |apply skipn_S_of; exact Hsuf].
+        rewrite (firstn_S_nth cur dflt mem) by lia. fold e. rewrite Hpre, Hnext, prune_spec_snoc, Hk. reflexivity. }
+    destruct (special e) eqn:Es.
+    + apply Hkeep; [reflexivity|reflexivity].
+    + destruct (negb (e_marked e)) eqn:Em.
+      * apply Hkeep; [reflexivity|reflexivity].
+      * apply IH; [lia|exact Hl|lia| |apply skipn_S_of; exact Hsuf].
+        rewrite Hpre, Hnext, prune_spec_snoc, Es, Em. simpl. rewrite app_nil_r. reflexivity.
+Qed.
+
+Theorem prune_block_correct : forall special mem, prune_block true special mem = prune_spec special mem.
+Proof.
+  intros special mem. unfold prune_block. apply prune_run_inv; try reflexivity; lia.
+Qed.
